@@ -5,6 +5,7 @@
 set -uo pipefail
 cd "$(dirname "$0")"
 ./trimcache.sh
+exec 9>/tmp/kmipsa-gocache.lock; flock -s 9   # compiling: the build cache must not be dropped meanwhile
 . ./env.sh
 ID=${1:?property id}; JOBS=${2:-8}
 REPO=${VERIF_REPO:-/repo}
